@@ -4,6 +4,7 @@ import GramModel.Check
 import GramModel.Oracle
 import GramModel.Typing
 import GramModel.Lemmas.RewriteTyping
+import GramModel.Lemmas.RewriteMore
 
 /-!
 # C19 — meaning-preserving rewrites change neither acceptance nor result
@@ -746,3 +747,257 @@ theorem C19_typing_names : C19_typing_names_stmt := by
   rw [h1] at h2
   revert h2
   cases inferX f Γ Δ e <;> cases inferX f Γ Δ e' <;> simp [Except.map, Except.toOption]
+
+/-! ## Naming a subexpression, reordering independent definitions, redundant parentheses
+
+(`Lemmas/RewriteMore.lean`.)  A program `P[s₀]` in which a subexpression `s₀` is named is
+`x : A = s₀; b` where `b` is `P` with the variable `x` (index `0`) in place of `s₀`, i.e.
+`P[s₀] = openT b 0 s₀ 0`, and the definition is `s₀` lifted over its own name (`ushift 0 1 s₀`). -/
+
+/-- **Naming a subexpression: the two programs are convertible**, in every definitions context and
+whether or not `s₀` is a value (unfolding a group is a head reduction of `Conv`). -/
+def C19_name_conv_stmt : Prop :=
+  ∀ (Δ : DCtxX) (x : Name) (A s₀ b : Tm),
+    Conv Δ (.letg (.cons x A (ushift 0 1 s₀) .nil) b) (openT b 0 s₀ 0)
+theorem C19_name_conv : C19_name_conv_stmt := RewriteMore.name_conv
+
+/-- the same for a definition that may mention its own name (a recursive function): the group is
+convertible with the body in which the variable is replaced by the recursive unfolding `x = s; x` -/
+def C19_name_conv_rec_stmt : Prop :=
+  ∀ (Δ : DCtxX) (x : Name) (A s b : Tm),
+    Conv Δ (.letg (.cons x A s .nil) b) (openT b 0 (unfoldDef x A s 0) 0)
+theorem C19_name_conv_rec : C19_name_conv_rec_stmt := RewriteMore.name_conv_gen
+
+/-- **Naming a subexpression: what the evaluator does.**  If the (hole-free) subexpression `s₀`
+evaluates to the value `v`, the program `x : A = s₀; b` evaluates to `b[v/x]` (this extends
+`C19_name_subexpression`, which is the case `b = x`, `s₀` already a value). -/
+def C19_name_eval_stmt : Prop :=
+  ∀ (x : Name) (A s₀ v b : Tm), s₀.holeFree = true → Steps s₀ v → isValue v = true →
+    Steps (.letg (.cons x A (ushift 0 1 s₀) .nil) b) (openT b 0 v 0)
+theorem C19_name_eval : C19_name_eval_stmt := fun _ _ _ _ b hf hs hv => RewriteMore.name_eval b hf hs hv
+
+example : Steps (.letg (.cons 1 .int (ushift 0 1 (.bin .sum (.lit 2) (.lit 3))) .nil)
+    (.bin .prod (.var 1 0) (.var 1 0))) (.bin .prod (.lit 5) (.lit 5)) :=
+  C19_name_eval 1 .int (.bin .sum (.lit 2) (.lit 3)) (.lit 5) (.bin .prod (.var 1 0) (.var 1 0)) rfl
+    (.head (.delta rfl) .refl) rfl
+
+/-- **Naming a subexpression does not change the value printed**: for hole-free `A`, `s₀`, `b`, if one of
+the two programs evaluates to a value and the other one to a ground value (an integer literal, `true`,
+`false` — what `gram run` prints for a program of type `int` / `bool`), the two results are the same
+term.  (By `C19_name_conv`, `steps_conv` and the consistency of conversion on weak head normal forms,
+`ConvCoherence.whnf_conv_ground`.) -/
+def C19_name_result_stmt : Prop :=
+  ∀ (x : Name) (A s₀ b v g : Tm), A.holeFree = true → s₀.holeFree = true → b.holeFree = true →
+    ConvCoherence.Ground g → isValue v = true →
+    (Steps (.letg (.cons x A (ushift 0 1 s₀) .nil) b) v → Steps (openT b 0 s₀ 0) g → v = g) ∧
+    (Steps (openT b 0 s₀ 0) v → Steps (.letg (.cons x A (ushift 0 1 s₀) .nil) b) g → v = g)
+theorem C19_name_result : C19_name_result_stmt := by
+  intro x A s₀ b v g hA hs hb hg hv
+  have hn : (Tm.letg (.cons x A (ushift 0 1 s₀) .nil) b).holeFree = true := by
+    simp only [Tm.holeFree, Defs.holeFree, Bool.and_eq_true, WhnfLemmas.ushift_holeFree]
+    exact ⟨⟨⟨hA, hs⟩, trivial⟩, hb⟩
+  have hi : (openT b 0 s₀ 0).holeFree = true := WhnfLemmas.openT_holeFree _ _ _ _ hb hs
+  exact ⟨fun h1 h2 => RewriteMore.conv_results_agree (RewriteMore.name_conv [] x A s₀ b) hn h1 hv h2 hg,
+    fun h1 h2 => RewriteMore.conv_results_agree (.symm (RewriteMore.name_conv [] x A s₀ b)) hi h1 hv h2 hg⟩
+
+/-- the same for the fuelled evaluator: whenever both runs end in ground values, these are equal -/
+def C19_name_result_eval_stmt : Prop :=
+  ∀ (x : Name) (A s₀ b : Tm) (n m : Nat), A.holeFree = true → s₀.holeFree = true → b.holeFree = true →
+    ConvCoherence.Ground (evalFuel n (.letg (.cons x A (ushift 0 1 s₀) .nil) b)) →
+    ConvCoherence.Ground (evalFuel m (openT b 0 s₀ 0)) →
+    evalFuel n (.letg (.cons x A (ushift 0 1 s₀) .nil) b) = evalFuel m (openT b 0 s₀ 0)
+theorem C19_name_result_eval : C19_name_result_eval_stmt := by
+  intro x A s₀ b n m hA hs hb g1 g2
+  have hv : isValue (evalFuel n (.letg (.cons x A (ushift 0 1 s₀) .nil) b)) = true := by
+    rcases g1 with ⟨k, e⟩ | e | e <;> rw [e] <;> rfl
+  exact (C19_name_result x A s₀ b _ _ hA hs hb g2 hv).1 (evalFuel_steps _ _) (evalFuel_steps _ _)
+
+-- `x : int = 2 + 3; x * x` and `(2 + 3) * (2 + 3)` both print `25`
+example : evalFuel 9 (.letg (.cons 1 .int (ushift 0 1 (.bin .sum (.lit 2) (.lit 3))) .nil)
+      (.bin .prod (.var 1 0) (.var 1 0))) = .lit 25 ∧
+    evalFuel 9 (openT (.bin .prod (.var 1 0) (.var 1 0)) 0 (.bin .sum (.lit 2) (.lit 3)) 0) = .lit 25 := by
+  decide
+
+/-- **Naming is strict** (a boundary of the rewrite, reproduced on the real binary): a definition is
+evaluated before the body, wherever the named subexpression stood.  `if false then 1 / 0 else 5` prints
+`5`; after naming the subexpression `1 / 0`, `x : int = 1 / 0; if false then x else 5` is accepted by
+`gram check` at the same type and `gram run` reports that evaluation is stuck (division by zero).  So
+the rewrite preserves the printed value only when the named subexpression itself has a value
+(`C19_name_eval`) — or, as `C19_name_result` says, whenever both programs do print a value. -/
+def C19_name_strict_witness_stmt : Prop :=
+  let s₀ : Tm := .bin .quot (.lit 1) (.lit 0)
+  let b : Tm := .ite .ff (.var 1 0) (.lit 5)
+  let named : Tm := .letg (.cons 1 .int (ushift 0 1 s₀) .nil) b
+  evalFuel 3 (openT b 0 s₀ 0) = .lit 5 ∧
+  step named = none ∧ isValue named = false ∧ stuckReason named = some .divZero ∧
+  (∃ T, inferX 9 [] [] named = .ok T ∧ convX 9 [] T .int = some true) ∧
+  inferX 9 [] [] (openT b 0 s₀ 0) = .ok .int
+theorem C19_name_strict_witness : C19_name_strict_witness_stmt := by
+  refine ⟨by decide, by decide, by decide, by decide, ⟨_, by rfl, by rfl⟩, by rfl⟩
+
+/-- **Naming in a dependent position** (typing side, an instance; no general theorem is proved here).
+With `P : int -> type = n => if n == 0 then int else bool`, the program `((y : P 0) => y) 5` and the
+program with the subexpression `0` named, `x : int = 0; ((y : P x) => y) 5`, are both accepted by the
+independent checker: the conversion test unfolds the definition of `x` (δ is part of `Conv`).  Abstracting
+the same occurrence by a *function* instead, `((x : int) => ((y : P x) => y) 5) 0`, is rejected
+(`argMismatch`: `x` is opaque).  The real binary agrees on all three.  The general statement
+"`HasType Γ Δ (b[s₀/x]) T` and `HasType Γ Δ s₀ A` imply that `x : A = s₀; b` is well typed" (anti-substitution
+under a transparent definition) needs uniqueness of types up to `Conv` and an induction over derivations
+of substituted terms; it is not proved in this development. -/
+def C19_typing_name_dependent_witness_stmt : Prop :=
+  let Pdef : Tm := .lam 9 false .int (.ite (.bin .eq (.var 9 0) (.lit 0)) .int .bool)
+  let ds : Defs := .cons 1 (.pi 0 false .int .type) Pdef .nil
+  let b : Tm := .app (.lam 5 false (.app (.var 1 1) (.var 2 0)) (.var 5 0)) (.lit 5)
+  (inferX 30 [] [] (.letg ds (openT b 0 (.lit 0) 0))).toOption.isSome = true ∧
+  (inferX 30 [] [] (.letg ds (.letg (.cons 2 .int (ushift 0 1 (.lit 0)) .nil) b))).toOption.isSome = true ∧
+  inferX 30 [] [] (.letg ds (.app (.lam 2 false .int b) (.lit 0))) = .error .argMismatch
+theorem C19_typing_name_dependent_witness : C19_typing_name_dependent_witness_stmt := by
+  refine ⟨by rfl, by rfl, by rfl⟩
+
+/-! ### Reordering two independent definitions
+
+A group of two definitions `x : A₁ = e₁; y : A₂ = e₂; b` whose annotations and definitions mention no
+variable of the group (they are lifted over both: `ushift 0 2`), against the group in the other order
+with the two variables exchanged in the body (`RewriteMore.swap01 0 b`).  Restriction: the definitions
+are closed with respect to the group — in particular not recursive. -/
+
+/-- both orders evaluate (when the definitions are values, e.g. functions) to the same term -/
+def C19_reorder_eval_stmt : Prop :=
+  ∀ (x y : Name) (A1 e1 A2 e2 b : Tm), b.holeFree = true → isValue e1 = true → isValue e2 = true →
+    ∃ r,
+      Steps (.letg (.cons x (ushift 0 2 A1) (ushift 0 2 e1) (.cons y (ushift 0 2 A2) (ushift 0 2 e2) .nil)) b) r ∧
+      Steps (.letg (.cons y (ushift 0 2 A2) (ushift 0 2 e2) (.cons x (ushift 0 2 A1) (ushift 0 2 e1) .nil))
+        (RewriteMore.swap01 0 b)) r
+theorem C19_reorder_eval : C19_reorder_eval_stmt := by
+  intro x y A1 e1 A2 e2 b hb h1 h2
+  refine ⟨_, RewriteMore.twoDefs_eval x y A1 e1 A2 e2 b h1 h2, ?_⟩
+  have h := RewriteMore.twoDefs_eval y x A2 e2 A1 e1 (RewriteMore.swap01 0 b) h2 h1
+  rwa [RewriteMore.swap_subst b e1 e2 hb] at h
+
+/-- both orders are convertible (values or not), in every definitions context -/
+def C19_reorder_conv_stmt : Prop :=
+  ∀ (Δ : DCtxX) (x y : Name) (A1 e1 A2 e2 b : Tm), b.holeFree = true →
+    Conv Δ
+      (.letg (.cons x (ushift 0 2 A1) (ushift 0 2 e1) (.cons y (ushift 0 2 A2) (ushift 0 2 e2) .nil)) b)
+      (.letg (.cons y (ushift 0 2 A2) (ushift 0 2 e2) (.cons x (ushift 0 2 A1) (ushift 0 2 e1) .nil))
+        (RewriteMore.swap01 0 b))
+theorem C19_reorder_conv : C19_reorder_conv_stmt := by
+  intro Δ x y A1 e1 A2 e2 b hb
+  have h1 := RewriteMore.twoDefs_conv Δ x y A1 e1 A2 e2 b
+  have h2 := RewriteMore.twoDefs_conv Δ y x A2 e2 A1 e1 (RewriteMore.swap01 0 b)
+  rw [RewriteMore.swap_subst b e1 e2 hb] at h2
+  exact .trans h1 (.symm h2)
+
+/-- hence both orders print the same value: if one evaluates to a value and the other to a ground
+value, the two coincide (hole-free programs; values or not, recursive or not does not matter here) -/
+def C19_reorder_result_stmt : Prop :=
+  ∀ (x y : Name) (A1 e1 A2 e2 b v g : Tm), A1.holeFree = true → e1.holeFree = true →
+    A2.holeFree = true → e2.holeFree = true → b.holeFree = true →
+    ConvCoherence.Ground g → isValue v = true →
+    Steps (.letg (.cons x (ushift 0 2 A1) (ushift 0 2 e1) (.cons y (ushift 0 2 A2) (ushift 0 2 e2) .nil)) b) v →
+    Steps (.letg (.cons y (ushift 0 2 A2) (ushift 0 2 e2) (.cons x (ushift 0 2 A1) (ushift 0 2 e1) .nil))
+      (RewriteMore.swap01 0 b)) g →
+    v = g
+theorem C19_reorder_result : C19_reorder_result_stmt := by
+  intro x y A1 e1 A2 e2 b v g h1 h2 h3 h4 hb hg hv s1 s2
+  refine RewriteMore.conv_results_agree (C19_reorder_conv [] x y A1 e1 A2 e2 b hb) ?_ s1 hv s2 hg
+  simp only [Tm.holeFree, Defs.holeFree, Bool.and_eq_true, WhnfLemmas.ushift_holeFree]
+  exact ⟨⟨⟨h1, h2⟩, ⟨h3, h4⟩, trivial⟩, hb⟩
+
+-- `f = n => n + 1; g = n => n * 2; f (g 3)` in both orders prints `7`
+example :
+    let f : Tm := .lam 3 false .int (.bin .sum (.var 3 0) (.lit 1))
+    let g : Tm := .lam 3 false .int (.bin .prod (.var 3 0) (.lit 2))
+    let A : Tm := .pi 0 false .int .int
+    let b : Tm := .app (.var 1 1) (.app (.var 2 0) (.lit 3))
+    evalFuel 12 (.letg (.cons 1 (ushift 0 2 A) (ushift 0 2 f) (.cons 2 (ushift 0 2 A) (ushift 0 2 g) .nil)) b)
+      = .lit 7 ∧
+    evalFuel 12 (.letg (.cons 2 (ushift 0 2 A) (ushift 0 2 g) (.cons 1 (ushift 0 2 A) (ushift 0 2 f) .nil))
+      (RewriteMore.swap01 0 b)) = .lit 7 ∧
+    RewriteMore.swap01 0 b = .app (.var 1 0) (.app (.var 2 1) (.lit 3)) := by
+  decide
+
+/-! ### Redundant parentheses (parser level)
+
+In the parser model `parse_group` returns the inner tree's `variant` with the range of the
+parentheses, `group = true` and the inner errors (plus a "never closed" error); nothing after the
+parse phase looks at a range except to copy it, and the `group` flag is read only by the three
+re-association passes. -/
+
+/-- **Parentheses around the whole program**: two surface trees with the same top-level `variant`
+(the program and the program in parentheses) are taken by the three re-association passes followed by
+name resolution to the same semantic term (`RTm.erase`: ranges forgotten), the same context, the same
+hole counter and the same number of errors — or both runs fail. -/
+def C19_paren_whole_stmt : Prop :=
+  ∀ (t t' : PModel.Src) (depth : Nat) (st : PModel.RState), t'.variant = t.variant →
+    (RewriteMore.reassocResolve t' depth st).map RewriteMore.resView =
+      (RewriteMore.reassocResolve t depth st).map RewriteMore.resView
+theorem C19_paren_whole : C19_paren_whole_stmt := fun _ _ depth st h => RewriteMore.paren_whole h depth st
+
+/-- each single pass, started at the top, only looks at the top node's `variant` -/
+def C19_paren_whole_pass_stmt : Prop :=
+  ∀ (fam : PModel.Family) (t t' : PModel.Src), t'.variant = t.variant →
+    (PModel.reassoc fam none t').map PModel.Src.variant = (PModel.reassoc fam none t).map PModel.Src.variant
+theorem C19_paren_whole_pass : C19_paren_whole_pass_stmt := fun fam _ _ h => RewriteMore.reassoc_top' fam h
+
+/-- **Parentheses around an operand that is an atom**: in a node `a ⊕ b` of the family being
+re-associated (met with any accumulator, any `group` flag), replacing the right operand `b` — a term
+the pass keeps as it is, e.g. an atom, whatever its `group` flag — by `b'` that differs from it only in
+ranges / `group` flags / error lists (`strip b' = strip b`: the same atom in parentheses) does not
+change the result up to ranges, `group` flags and error lists, provided the left operand `a` is opaque
+to the pass: `reassoc fam acc a = (reassoc fam none a).map (reassocTail acc)` — true of atoms
+(`RewriteMore.kept_atom`), and of parenthesised chains (`RewriteMore.opaque_grouped`, i.e.
+`C07_group_opaque`). -/
+def C19_paren_operand_stmt : Prop :=
+  ∀ (fam : PModel.Family) (acc : Option (PModel.Src × PModel.Link)) (r : PModel.SourceRange) (g : Bool)
+    (o : BinOp) (a b b' : PModel.Src) (es : List PModel.PErr),
+    ((fam = .productsAndQuotients ∧ (o = .prod ∨ o = .quot))
+      ∨ (fam = .sumsAndDifferences ∧ (o = .sum ∨ o = .diff))) →
+    RewriteMore.Kept fam b → RewriteMore.Kept fam b' → RewriteMore.strip b' = RewriteMore.strip b →
+    RewriteMore.Opaque fam a →
+    (PModel.reassoc fam acc (.mk r g (.bin o a b') es)).map RewriteMore.strip =
+      (PModel.reassoc fam acc (.mk r g (.bin o a b) es)).map RewriteMore.strip
+theorem C19_paren_operand : C19_paren_operand_stmt :=
+  fun fam acc r g o a b b' es ho hb hb' hs ha => RewriteMore.paren_operand fam acc r g o a b b' es ho hb hb' hs ha
+
+/-- the operands the previous theorem is about exist: every atom is kept (hence opaque), every
+parenthesised chain of the family is opaque -/
+def C19_paren_operand_applies_stmt : Prop :=
+  ∀ (fam : PModel.Family) (r : PModel.SourceRange) (g : Bool) (es : List PModel.PErr),
+    (∀ n, RewriteMore.Kept fam (.mk r g (.lit n) es)) ∧ (∀ x, RewriteMore.Kept fam (.mk r g (.var x) es)) ∧
+    RewriteMore.Kept fam (.mk r g .tt es) ∧ RewriteMore.Kept fam (.mk r g .ff es) ∧
+    (∀ t, RewriteMore.Kept fam t → RewriteMore.Opaque fam t) ∧
+    (∀ o a b, ((fam = .productsAndQuotients ∧ (o = .prod ∨ o = .quot))
+        ∨ (fam = .sumsAndDifferences ∧ (o = .sum ∨ o = .diff))) →
+      RewriteMore.Opaque fam (.mk r true (.bin o a b) es))
+theorem C19_paren_operand_applies : C19_paren_operand_applies_stmt := by
+  intro fam r g es
+  refine ⟨fun n => RewriteMore.kept_atom fam r g _ es (by simp),
+    fun x => RewriteMore.kept_atom fam r g _ es (by simp),
+    RewriteMore.kept_atom fam r g _ es (by simp), RewriteMore.kept_atom fam r g _ es (by simp),
+    fun _ h => RewriteMore.opaque_of_kept h, fun o a b ho => RewriteMore.opaque_grouped fam r o a b es ho⟩
+
+section ParenExamples
+open PModel
+
+private def lit19 (n : Int) (s e : Nat) (g : Bool) : Src := .mk ⟨s, e⟩ g (.lit n) []
+/-- `10 - 5 - 3` as the packrat functions return it (right-nested, ungrouped) -/
+private def prog19 : Src :=
+  .mk ⟨0, 10⟩ false (.bin .diff (lit19 10 0 2 false)
+    (.mk ⟨5, 10⟩ false (.bin .diff (lit19 5 5 6 false) (lit19 3 9 10 false)) [])) []
+/-- `(10 - 5 - 3)` : the same variant, the range of the parentheses, `group = true` -/
+private def prog19' : Src := .mk ⟨0, 12⟩ true prog19.variant []
+
+-- both become `(10 - 5) - 3`
+example : (RewriteMore.reassocResolve prog19 0 ⟨[], [], 0⟩).map RewriteMore.resView =
+    some (.bin .diff (.bin .diff (.lit 10) (.lit 5)) (.lit 3), [], 0, 0) := by decide +kernel
+example : (RewriteMore.reassocResolve prog19' 0 ⟨[], [], 0⟩).map RewriteMore.resView =
+    some (.bin .diff (.bin .diff (.lit 10) (.lit 5)) (.lit 3), [], 0, 0) := by decide +kernel
+
+-- `10 - 5 - 3` against `10 - 5 - (3)`: equal up to ranges and flags, and not `none`
+example : (reassoc .sumsAndDifferences none (.mk ⟨0, 12⟩ false (.bin .diff (lit19 10 0 2 false)
+      (.mk ⟨5, 12⟩ false (.bin .diff (lit19 5 5 6 false) (lit19 3 9 12 true)) [])) [])).map RewriteMore.strip
+    = (reassoc .sumsAndDifferences none prog19).map RewriteMore.strip ∧
+    (reassoc .sumsAndDifferences none prog19).isSome = true := ⟨by rfl, by rfl⟩
+
+end ParenExamples
